@@ -176,6 +176,11 @@ def leaf_values(mod, t, big=False):
         ok2 = sc is None or sc.ext or sc.contains(2)
         if ok2:
             out.append(_mkstr(k, alpha, 2, 1))
+        # the XML-special characters (escaped as &amp; &lt; &gt; by the XER encoder, a tokenizer state of their own in the decoder)
+        if not big and alpha is None and k in ('IA5String', 'VisibleString', 'UTF8String', 'BMPString', 'UniversalString', 'GeneralString', 'GraphicString'):
+            for sp in ('&', 'a&b<c>d', '<&>&'):
+                if sc is None or sc.ext or sc.contains(len(sp)):
+                    out.append(sp)
         return out
     raise ValueError(k)
 
